@@ -232,8 +232,23 @@ pub struct Op<'a, P: ParamGuard> {
     pub unchecked: Box<dyn Fn(&P) -> Result<String, String> + 'a>,
     /// the same call on the checked parameters
     pub checked: Box<dyn Fn(&P::Checked) -> Result<String, String> + 'a>,
-    /// Debug of the operation's error type built from the parameter error (`E::from(e)`)
+    /// Debug of the error the form must return for the parameter error `e` of check(): the parameter
+    /// error wrapped in the DOCUMENTED variant of the form's own error type, built by naming the variant
+    /// (never through the crate's `From` impl, which is part of what is being checked); the identity
+    /// where the form's error type is the parameter error type
     pub lift: Box<dyn Fn(P::Error) -> String + 'a>,
+}
+
+/// Fingerprint of a WHOLE dataset result: records (or a stand-in for records without Debug), targets,
+/// sample weights, feature names and target names - the checked and the unchecked dataset form of a
+/// transformer must agree on all of them.
+pub fn ds_print<R: linfa::dataset::Records, T: linfa::dataset::AsTargets>(records: String, ds: &linfa::DatasetBase<R, T>, targets: String) -> String {
+    format!("records={} targets={} weights={:?} feature_names={:?} target_names={:?}", records, targets, ds.weights(), ds.feature_names(), ds.target_names())
+}
+
+/// the same for results whose targets are not `AsTargets` (no target names available)
+pub fn ds_print_plain<R: linfa::dataset::Records, T>(records: String, ds: &linfa::DatasetBase<R, T>, targets: String) -> String {
+    format!("records={} targets={} weights={:?} feature_names={:?}", records, targets, ds.weights(), ds.feature_names())
 }
 
 /// Fixes the argument types of a setter-chain closure from the constructor closure.
@@ -420,7 +435,7 @@ pub fn judge<P: ParamGuard>(
             if u != v {
                 out.viols.push(Violation::new(
                     format!("{}.{}.unchecked_differs_from_checked", b, op.name),
-                    format!("{} on the unchecked builder gave {} but on the checked parameters {} at point {}", op.name, show(&u), show(&v), point),
+                    format!("{} on the unchecked builder gave {} but on the checked parameters {}{} at point {}", op.name, show(&u), show(&v), first_diff(&u, &v), point),
                     cj(op.name),
                 ));
             }
@@ -699,6 +714,20 @@ fn run_history<P: ParamGuard>(
                 ));
             }
         }
+    }
+}
+
+/// where two long fingerprints start to differ
+fn first_diff(a: &OpRes, b: &OpRes) -> String {
+    match (a, b) {
+        (Ok(Ok(x)), Ok(Ok(y))) => {
+            let (xc, yc): (Vec<char>, Vec<char>) = (x.chars().collect(), y.chars().collect());
+            let i = xc.iter().zip(yc.iter()).take_while(|(p, q)| p == q).count();
+            let from = i.saturating_sub(40);
+            let cut = |v: &Vec<char>| v.iter().skip(from).take(120).collect::<String>();
+            format!(" [first difference at char {}: ...{} | ...{}]", i, cut(&xc), cut(&yc))
+        }
+        _ => String::new(),
     }
 }
 
